@@ -72,6 +72,7 @@ def run_specx(res, c03):
                     res.violation("C03.a.same-submissions", tbf.rel(facts.path_of(c["node"])), st.fn["qname"], c["method"] + ":untasked", c["node"]["l"][1],
                                   "wrapper call executed outside any task")
         c03.join_rule(facts, ex, res, "specx")
+        c03.only_through_stages(facts, ex, res)
         c03.kernels_sized(facts, ex, res, "param")
         c03.per_worker_kernel(facts, ex, res, ("GetThreadId",))
     res.floor("C03.c.specx", ntasks, 14, "Specx task lambdas")
